@@ -27,14 +27,14 @@ tvars == <<l, nbad>>
 SRec(cs, cfin, tfin, trst) == [hs |-> cs.hs, tk |-> cs.tk, cfin |-> cfin, tfin |-> tfin, trst |-> trst]
 ORecFinal(cs) ==
   [ csent |-> cs.csent, tsent |-> cs.tsent, tlog |-> cs.tlog, clog |-> cs.clog, mlog |-> cs.mlog, dials |-> cs.dials,
-    acceptAt |-> cs.acceptAt, closeAt |-> cs.closeAt, cfinAt |-> cs.cfinAt, preDoneAt |-> cs.preDoneAt, addrDoneAt |-> cs.addrDoneAt, stalls |-> ToSet(cs.stallKinds),
+    acceptAt |-> cs.acceptAt, closeAt |-> cs.closeAt, cfinAt |-> cs.cfinAt, preDoneAt |-> cs.preDoneAt, addrDoneAt |-> cs.addrDoneAt, stalls |-> ToSet(cs.stallKinds), handlerDone |-> cs.handled, cancelled |-> cs.cancelled,
     lastSendAt |-> cs.lastSendAt, tfinPolite |-> cs.tfinPolite, drain |-> cs.drain, timeout |-> cs.timeoutMs,
     wire |-> [cs |-> cs.wcs, tr |-> cs.wtr, ts |-> cs.wts, cr |-> cs.wcr] ]
 ORecSnap(cs, sn) ==
   [ csent |-> SubSeq(cs.csent, 1, sn.ncs), tsent |-> sn.nts,
     tlog |-> SubSeq(cs.tlog, 1, sn.tl), clog |-> SubSeq(cs.clog, 1, sn.cl), mlog |-> SubSeq(cs.mlog, 1, sn.ml),
     dials |-> sn.dl, acceptAt |-> IF sn.ml > 0 THEN cs.acceptAt ELSE -1, closeAt |-> sn.closeAt, cfinAt |-> sn.cfinAt,
-    preDoneAt |-> sn.preDoneAt, addrDoneAt |-> sn.addrDoneAt, stalls |-> ToSet(sn.stallKinds), lastSendAt |-> sn.lastSendAt, tfinPolite |-> sn.tfinPolite, drain |-> "",
+    preDoneAt |-> sn.preDoneAt, addrDoneAt |-> sn.addrDoneAt, stalls |-> ToSet(sn.stallKinds), handlerDone |-> FALSE, cancelled |-> sn.cancelled, lastSendAt |-> sn.lastSendAt, tfinPolite |-> sn.tfinPolite, drain |-> "",
     timeout |-> cs.timeoutMs, wire |-> [cs |-> sn.wcs, tr |-> sn.wtr, ts |-> sn.wts, cr |-> sn.wcr] ]
 
 FinalFailing(cs) == Failing(PropsFinal, SRec(cs, cs.cfin, cs.tfin, cs.trst), ORecFinal(cs))
